@@ -20,7 +20,7 @@ type CryptConfig struct {
 	WithMetadata      bool
 	Seekable          bool
 	HighNumbers       bool // object numbers up to 70000 (the xref section grows accordingly)
-	MaxNumber         bool // with HighNumbers: object numbers at the 2^24-1 limit (16M xref entries: use sparingly)
+	MaxNumber         bool // with HighNumbers: object numbers around 0x03FFFF (a 262144-entry xref table: use sparingly)
 }
 
 func (c *CryptConfig) String() string {
@@ -135,7 +135,7 @@ func BuildCryptDoc(r *kit.Rand, cfg CryptConfig) (*CryptDoc, error) {
 				// high object numbers and non-zero generations enter the per-object key
 				num := kit.Pick(r, []uint32{65535, 65536, 70000 + uint32(i), 300 + uint32(i)})
 				if cfg.MaxNumber {
-					num = 1<<24 - 1 - uint32(i)
+					num = 0x03FFFF - uint32(i) // all three key bytes of the object number differ from zero
 				}
 				ref = pdf.NewReference(num, kit.Pick(r, []uint16{0, 1, 255, 256, 65535}))
 			} else if r.Chance(1, 6) {
